@@ -279,6 +279,52 @@ pub fn run(ctx: &Ctx, reg: &Registry) -> i32 {
                 note_case(&mut acc, s, &case);
                 one(&mut acc, reg, s, &case);
             }
+            // typos of accepted names (0..5 edits, incl. the shapes that separate edit-distance variants) as the
+            // unknown key of a deny_unknown_fields body / the unknown string of a unit enum: suggestion iff spec
+            {
+                unit += 1;
+                if shard_of(unit, shard, n) {
+                    let mut rng = vcore::Rng::derive(ctx.seed, vcore::evidence::hash64(s.name()), 1418);
+                    let n_typos: usize = ctx.tier.pick(40, 400);
+                    if let refmodel::Ty::Named(nm) = crate::bodies::strip(s.ty()) {
+                        if let Some(refmodel::Def::UnitEnum(u)) = reg.defs.0.get(nm) {
+                            for (_, key) in &u.variants {
+                                for j in 0..n_typos {
+                                    let t = refmodel::payload::typo(&mut rng, key, 1 + j % 5);
+                                    if u.variants.iter().any(|v| v.1 == t) {
+                                        continue;
+                                    }
+                                    one(&mut acc, reg, s, &Case { payload: Ov::Str(t), faults: vec!["typo-of-accepted-value"] });
+                                    acc.count("typo_cases");
+                                }
+                            }
+                        }
+                    }
+                    for body in crate::bodies::bodies(&reg.defs, s.ty()) {
+                        if body.deny != refmodel::Deny::Default {
+                            continue;
+                        }
+                        let live: Vec<&refmodel::FieldDef> = body.fields.iter().filter(|f| !f.skip).collect();
+                        let h = vcore::evidence::hash64(s.name());
+                        for (fi, f) in live.iter().enumerate() {
+                            for j in 0..n_typos {
+                                let t = refmodel::payload::typo(&mut rng, &f.key, 1 + j % 5);
+                                if live.iter().any(|g| g.key == t) || body.tag.as_ref().map_or(false, |tg| tg.0 == t) {
+                                    continue;
+                                }
+                                // every field present and valid except that this one sits under the typo
+                                let members: Vec<(String, Ov)> = live
+                                    .iter()
+                                    .enumerate()
+                                    .map(|(gi, g)| (if gi == fi { t.clone() } else { g.key.clone() }, crate::bodies::valid_value(&reg.defs, &g.ty, ctx.seed ^ h, gi as u64, 0)))
+                                    .collect();
+                                one(&mut acc, reg, s, &Case { payload: crate::bodies::assemble(&body, members, j % 3), faults: vec!["typo-of-accepted-key"] });
+                                acc.count("typo_cases");
+                            }
+                        }
+                    }
+                }
+            }
             for b in 0..n_base {
                 unit += 1;
                 if !shard_of(unit, shard, n) {
@@ -299,7 +345,7 @@ pub fn run(ctx: &Ctx, reg: &Registry) -> i32 {
         acc,
         Finish {
             level: "exploration",
-            rule: "for every failing payload (random multi-fault payloads and every single structural mutation of valid payloads; all catalogue + generated subjects that are generic over the error type): r0 = first report of the recorded keep-going run through serde_json; the Display of the JsonError / QueryParamError returned for the same payload must CONTAIN (containment, never equality) the rendered path of r0 (`.a[1].b`; query parameters without the leading dot; no path at the root) and per kind the JSON text of the offending value / the scalar, the missing field, the unknown key or value with every accepted alternative and `did you mean `X`` iff the independent Damerau-Levenshtein spec yields X, both lengths and the JSON text of the sequence, or the detail message of Unexpected / the foreign error. JsonError read-back: the path parsed out of the message resolves in the payload to a node whose JSON text is the text the message quotes. Non-trivial = every failing payload; distinct = (subject, error type, kind, depth, trace shape).".into(),
+            rule: "for every failing payload (random multi-fault payloads, every single structural mutation of valid payloads, and typos of 1..5 edits of every accepted key / enum value incl. swap+insert and swap-around-a-dropped-letter shapes; all catalogue + generated subjects that are generic over the error type): r0 = first report of the recorded keep-going run through serde_json; the Display of the JsonError / QueryParamError returned for the same payload must CONTAIN (containment, never equality) the rendered path of r0 (`.a[1].b`; query parameters without the leading dot; no path at the root) and per kind the JSON text of the offending value / the scalar, the missing field, the unknown key or value with every accepted alternative and `did you mean `X`` iff the independent Damerau-Levenshtein spec yields X, both lengths and the JSON text of the sequence, or the detail message of Unexpected / the foreign error. JsonError read-back: the path parsed out of the message resolves in the payload to a node whose JSON text is the text the message quotes. Non-trivial = every failing payload; distinct = (subject, error type, kind, depth, trace shape).".into(),
             exhaustive: false,
             assumptions: vec!["read-back only for locations whose keys are over [A-Za-z0-9_]".into(), "wording is never compared, only the facts the statement lists".into()],
         },
